@@ -522,8 +522,11 @@ func confirm(plan *Plan, v vlib.Violation) (bool, string) {
 		job := &vlib.Job{Property: plan.ID, Scenario: sc, Tier: "replay", NShard: 1, Bound: st.Bound, Params: st.Params, Replay: v.Replay}
 		wo := runWorker(st.Binary, job, fmt.Sprintf("%s.confirm%d", plan.ID, i), 180*time.Second)
 		if wo.res == nil {
-			if v.Class == "fatal-exit" || v.Class == "deadlock" {
-				continue // dying again is the reproduction
+			if strings.HasPrefix(v.Class, "fatal-exit") {
+				if c := fatalClass(wo.stderr); c != v.Class {
+					return false, fmt.Sprintf("replay died with class %s, want %s", c, v.Class)
+				}
+				continue // dying again in the same way is the reproduction
 			}
 			return false, "replay worker died: " + tail(wo.stderr, 400)
 		}
@@ -568,9 +571,44 @@ func handleDeadWorker(plan *Plan, st Stage, wo workerOut, tag string) (*vlib.Vio
 		}
 	}
 	if died == 3 {
-		return &vlib.Violation{Class: "fatal-exit", Desc: "process dies on this case every time:\n" + tail(last, 3000), Replay: jb}, ""
+		return &vlib.Violation{Class: fatalClass(last), Desc: "process dies on this case every time:\n" + tail(last, 3000), Replay: jb}, ""
 	}
 	return nil, fmt.Sprintf("%s: worker died (%v) but the journalled case does not reproduce it: %s", st.Scenario, wo.err, tail(wo.stderr, 1500))
+}
+
+// fatalClass derives a failure class from the output of a worker that died: the first panic /
+// fatal error / assertion line, with digits and addresses removed.
+func fatalClass(out string) string {
+	for _, l := range strings.Split(out, "\n") {
+		t := strings.TrimSpace(l)
+		for _, p := range []string{"panic: ", "fatal error: "} {
+			if strings.HasPrefix(t, p) {
+				return "fatal-exit/" + normClass(strings.TrimPrefix(t, p))
+			}
+		}
+		if strings.Contains(t, "Assert failed") {
+			return "fatal-exit/Assert failed"
+		}
+	}
+	return "fatal-exit"
+}
+
+func normClass(s string) string {
+	var b strings.Builder
+	for _, r := range s {
+		if r >= '0' && r <= '9' {
+			continue
+		}
+		b.WriteRune(r)
+	}
+	out := strings.TrimSpace(b.String())
+	if i := strings.Index(out, " [recovered"); i >= 0 {
+		out = out[:i]
+	}
+	if len(out) > 60 {
+		out = out[:60]
+	}
+	return out
 }
 
 func doReplay(plan *Plan, file string) int {
